@@ -1,0 +1,86 @@
+//go:build verif
+
+package erpc
+
+// Verification hooks, compiled only with the build tag `verif`.
+// VerifPoint, when set (before any session exists), is called at the
+// linearization points named in the source with the session concerned.
+// It may block: the verification harness uses that to force schedules.
+
+// VerifPoint is the hook invoked by vp.
+var VerifPoint func(point string, sess Session, a, b int64)
+
+func vp(point string, s *session, a, b int64) {
+	if f := VerifPoint; f != nil {
+		if s == nil {
+			f(point, nil, a, b)
+			return
+		}
+		f(point, s, a, b)
+	}
+}
+
+func vpb(b bool) int64 {
+	if b {
+		return 1
+	}
+	return 0
+}
+
+// VerifSentinel is the observable content of one package-level status.
+type VerifSentinel struct {
+	Name  string
+	Code  int32
+	Msg   string
+	Cause string
+}
+
+// VerifSentinels returns a snapshot of every package-level framework status.
+func VerifSentinels() []VerifSentinel {
+	list := []struct {
+		n string
+		s *Status
+	}{
+		{"statInvalidOpError", statInvalidOpError},
+		{"statUnknownError", statUnknownError},
+		{"statDialFailed", statDialFailed},
+		{"statConnClosed", statConnClosed},
+		{"statWriteFailed", statWriteFailed},
+		{"statBadMessage", statBadMessage},
+		{"statNotFound", statNotFound},
+		{"statCodeMtypeNotAllowed", statCodeMtypeNotAllowed},
+		{"statHandleTimeout", statHandleTimeout},
+		{"statInternalServerError", statInternalServerError},
+		{"statUnpreparedError", statUnpreparedError},
+	}
+	out := make([]VerifSentinel, 0, len(list))
+	for _, e := range list {
+		v := VerifSentinel{Name: e.n, Code: e.s.Code(), Msg: e.s.Msg()}
+		if c := e.s.Cause(); c != nil {
+			v.Cause = c.Error()
+		}
+		out = append(out, v)
+	}
+	return out
+}
+
+// VerifPending returns the number of calls waiting for a reply on the session.
+func VerifPending(sess Session) int {
+	s, ok := sess.(*session)
+	if !ok {
+		return -1
+	}
+	return s.callCmdMap.Len()
+}
+
+// VerifStatus returns the raw lifecycle status word of the session.
+func VerifStatus(sess Session) int32 {
+	s, ok := sess.(*session)
+	if !ok {
+		return -1
+	}
+	return s.getStatus()
+}
+
+// VerifStatusNames maps the status word to its name.
+var VerifStatusNames = []string{"Preparing", "Ok", "ActiveClosing", "ActiveClosed", "PassiveClosing", "PassiveClosed", "Redialing", "RedialFailed"}
